@@ -11,7 +11,7 @@
  * A 4-byte read of the jumbo size field at buf+off+12 is therefore reported as a
  * failure whenever fewer than 28 bytes remain, although the code reads 4 bytes.
  * The input space is split exhaustively:
- *   C19_PAD == 0 (groups stream_step, stream_step_thorough): no jumbo header in the last 27 bytes
+ *   C19_PAD == 0 (group stream_step): no jumbo header in the last 27 bytes
  *                of the buffer is touched (TAIL_WINDOW false); object of exactly size bytes.
  *   C19_PAD == 12 (group stream_step_tail): TAIL_WINDOW true; the object has 12 more
  *                bytes than stream->size, with arbitrary content, and the exact functional
@@ -166,7 +166,12 @@ void h_stream_step(void)
  * `clock - stream->lastclock` = INT64_MIN - INT64_MAX.  */
 int c_stream_step_anyclock(struct stream *stream)
 STREAM_STEP_PRE(stream)
+#ifdef C19_ANYCLOCK_FULL
+__CPROVER_requires(!TAIL_WINDOW)
+#else
+/* quick tier: loading the first event only (the unrestricted twin runs in the thorough tier) */
 __CPROVER_requires(!TAIL_WINDOW && !g_had_ev)
+#endif
 __CPROVER_assigns(stream->offset, stream->cur_ev, stream->active, stream->lastclock, stream->deltaclock, DIAG_FRAME)
 __CPROVER_ensures(__CPROVER_return_value == 0 || __CPROVER_return_value == 1 || __CPROVER_return_value == -1)
 __CPROVER_ensures(stream->offset >= 0 && stream->offset <= stream->size)
